@@ -1386,6 +1386,11 @@ class Mini:
             if nm == "checked_add" and isinstance(recv, int):
                 r = recv + args[0]
                 return ("Some", r) if r < (1 << INT_BITS[ty]) else "None"
+            if nm == "checked_mul" and isinstance(recv, int) and isinstance(args[0], int):
+                r = recv * args[0]
+                lo_ = -(1 << (INT_BITS[ty] - 1)) if ty.startswith("i") else 0
+                hi_ = (1 << (INT_BITS[ty] - 1)) - 1 if ty.startswith("i") else (1 << INT_BITS[ty]) - 1
+                return ("Some", r) if lo_ <= r <= hi_ else "None"
             if nm == "saturating_sub" and isinstance(recv, int):
                 return max(recv - args[0], 0)
             if nm == "wrapping_add" and isinstance(recv, int):
@@ -1482,6 +1487,9 @@ class Mini:
             if len(ga) >= 2 and ga[0] in INT_BITS and ga[1] in INT_BITS:
                 return self.cast(recv, ga[0], ga[1])
             if len(ga) >= 2 and ga[0] == ga[1]:
+                return recv
+            if isinstance(recv, int) and not isinstance(recv, bool) and len(ga) >= 2 and (ga[1] in INT_BITS or ga[0] in INT_BITS):
+                # `amount: impl Into<u32>` handed an integer: a value-preserving widening (that it compiles says the source fits)
                 return recv
         if p in ("std::clone::Clone::clone",):
             if isinstance(recv, BTree):
